@@ -15,6 +15,7 @@ type Closure struct {
 	Env     *Env // the definer's own variables, shared by reference; nil when defined at top level
 	Builtin string
 	forkSeq int // >0: created by generator-side code directly in a forked activation
+	assigns map[string]bool
 }
 
 // Env holds the own variables of one activation.
@@ -33,6 +34,7 @@ type Act struct {
 	Name     string // name the callee was called by
 	Params   []string
 	Caller   *Act
+	assigns  map[string]bool // names the function assigns somewhere in its body
 }
 
 // FrameInfo is one line of a backtrace.
@@ -87,6 +89,8 @@ type Interp struct {
 	Calls    int
 	MaxDepth int
 	depth    int
+	// Deferred: names with a read whose resolution the static analysis leaves to run time (AnalyzeDefUse)
+	Deferred map[string]bool
 }
 
 // Builtins lists the built-in function names with their arity.
@@ -129,6 +133,14 @@ func (in *Interp) RunStmt(n node.Type, fuel int) (res Result) {
 	in.Dom = map[string]int{}
 	in.Err = nil
 	in.depth = 0
+	if in.Deferred == nil {
+		in.Deferred = map[string]bool{}
+	}
+	if _, def := AnalyzeDefUse(n); len(def) > 0 {
+		for k := range def {
+			in.Deferred[k] = true
+		}
+	}
 	top := &Coro{}
 	topAct := &Act{}
 	top.cur = topAct
@@ -192,11 +204,28 @@ func (in *Interp) lookup(name string, act *Act, self *Coro) Val {
 			return v
 		}
 	}
+	if act.Own != nil && in.Deferred[name] && act.assigns[name] {
+		// the function assigns this name somewhere but has not done so in this activation: its own variable is
+		// still empty (lexical reading); the dynamic reading looks outward. They agree iff that gives nil.
+		if v := in.outward(name, act); v.K != KNil {
+			in.flag(DUseDef)
+		}
+		return Nil
+	}
 	if act.Captured != nil {
 		if v, ok := act.Captured.vars[name]; ok {
 			if act.capFork > 0 && act.Captured.writeSeq[name] > act.capFork {
 				in.flag(DFork)
 			}
+			return v
+		}
+	}
+	return in.Globals[name]
+}
+
+func (in *Interp) outward(name string, act *Act) Val {
+	if act.Captured != nil {
+		if v, ok := act.Captured.vars[name]; ok {
 			return v
 		}
 	}
@@ -370,7 +399,10 @@ func (in *Interp) call(c *Closure, name string, args []Val, caller *Act, self, c
 		in.MaxDepth = in.depth
 	}
 	defer func() { in.depth-- }()
-	act := &Act{Own: newEnv(), Captured: c.Env, capFork: c.forkSeq, Name: name, Params: c.Params, Caller: caller}
+	if c.assigns == nil && c.Builtin == "" {
+		c.assigns = AssignedNames(c.Body)
+	}
+	act := &Act{Own: newEnv(), Captured: c.Env, capFork: c.forkSeq, Name: name, Params: c.Params, Caller: caller, assigns: c.assigns}
 	for i, p := range c.Params {
 		in.seq++
 		act.Own.vars[p] = args[i]
